@@ -239,13 +239,23 @@ impl Iterator for GreedyRepeatIterator<'_> {
     }
 }
 
+// One iteration of the repeated term in a reluctant repeat: the matches of the
+// term starting at `from`, and the position the current one of them reached.
+struct ReluctantIteration<'a> {
+    matches: Box<dyn Iterator<Item = usize> + 'a>,
+    from: usize,
+    position: usize,
+}
+
 struct ReluctantRepeatIterator<'a> {
     matcher: &'a crate::re_matcher::ReMatcher<'a>,
     operation: &'a Operation,
     min: usize,
     max: usize,
-    counter: usize,
-    position: Option<usize>,
+    start: usize,
+    started: bool,
+    // the iterations made so far, innermost last
+    iterations: Vec<ReluctantIteration<'a>>,
 }
 
 impl<'a> ReluctantRepeatIterator<'a> {
@@ -261,8 +271,9 @@ impl<'a> ReluctantRepeatIterator<'a> {
             operation,
             min,
             max,
-            counter: 0,
-            position: Some(position),
+            start: position,
+            started: false,
+            iterations: Vec::new(),
         }
     }
 }
@@ -270,31 +281,54 @@ impl<'a> ReluctantRepeatIterator<'a> {
 impl Iterator for ReluctantRepeatIterator<'_> {
     type Item = usize;
 
+    // Delivers the end positions fewest iterations first: a position is
+    // delivered before a further iteration is tried from it, and when no
+    // further iteration is possible the other matches of the iterations
+    // already made are tried, innermost first.
     fn next(&mut self) -> Option<Self::Item> {
-        loop {
-            if let Some(position) = self.position {
-                let mut it = self.operation.matches_iter(self.matcher, position);
-                if let Some(position) = it.next() {
-                    self.counter += 1;
-                    if self.counter > self.max {
-                        self.position = None;
-                    } else {
-                        self.position = Some(position);
-                    }
-                } else if self.min == 0 && self.counter == 0 {
-                    // the repeated term does not match here: zero
-                    // occurrences are allowed, so stay at this position
-                    self.counter += 1;
-                } else {
-                    // the repeated term does not match any more
-                    self.position = None;
-                }
-            }
-            if self.counter >= self.min || self.position.is_none() {
-                break;
+        if !self.started {
+            self.started = true;
+            if self.min == 0 {
+                // no iteration at all comes first
+                return Some(self.start);
             }
         }
-        self.position
+        loop {
+            let (here, progressed) = match self.iterations.last() {
+                Some(last) => (last.position, last.position != last.from),
+                None => (self.start, true),
+            };
+            // one more iteration, unless the maximum is reached or the last
+            // iteration matched nothing without being needed for the minimum
+            let mut extended = false;
+            if self.iterations.len() < self.max && (progressed || self.iterations.len() < self.min)
+            {
+                let mut matches = self.operation.matches_iter(self.matcher, here);
+                if let Some(position) = matches.next() {
+                    self.iterations.push(ReluctantIteration {
+                        matches,
+                        from: here,
+                        position,
+                    });
+                    extended = true;
+                }
+            }
+            if !extended {
+                // the repeated term does not match any more: try the other
+                // matches of the iterations made so far
+                loop {
+                    let last = self.iterations.last_mut()?;
+                    if let Some(position) = last.matches.next() {
+                        last.position = position;
+                        break;
+                    }
+                    self.iterations.pop();
+                }
+            }
+            if self.iterations.len() >= self.min {
+                return self.iterations.last().map(|last| last.position);
+            }
+        }
     }
 }
 
